@@ -264,6 +264,171 @@ static void enumerate_all(vh_rng* r, size_t n) {
   }
 }
 
+
+/* ---------- element / key / value types of different sizes, in containers obtained in different ways ----------
+** A container records the sizes of its element (key, value) types when it is constructed, copied into or assigned
+** to; every object it then hands out must have size(type) usable bytes of its own, whichever way the container came
+** to be.  Plain types of 1..48 bytes; keys and values of different sizes in both directions. */
+
+enum { NSZT = 6 };
+static const size_t SZT_SIZE[NSZT] = { 1, 3, 8, 12, 24, 48 };
+static var SZT[NSZT];
+
+static void fill_obj(unsigned char* out, size_t size, size_t index, unsigned salt) {
+  memset(out, 0, size);
+  out[0] = (unsigned char)index;                       /* index < 256: distinct objects differ in the first byte */
+  for (size_t i = 1; i < size; i++) { out[i] = (unsigned char)(index * 7 + i * 13 + salt); }
+}
+
+static var stack_obj(var T, size_t size, size_t index, unsigned salt, char* buf) {
+  var o = header_init(buf, T, AllocStack);
+  fill_obj(o, size, index, salt);
+  return o;
+}
+
+static void check_map(var m, var KT, size_t ks, var VT, size_t vs, const unsigned char* present, size_t n, const char* how) {
+  char kbuf[sizeof(struct Header) + 64];
+  unsigned char want[64];
+  size_t seen = 0, expected = 0;
+  for (size_t i = 0; i < n; i++) { expected += present[i]; }
+  vh_eval();
+  if (len(m) != expected) { vh_violation(K("map-of-sized-types:len", how), "len %zu, expected %zu", len(m), expected); return; }
+  foreach (k in m) {
+    if (seen++ > n + 1) { break; }
+    observe(k, KT, AllocData, how);
+    var v = get(m, k);
+    observe(v, VT, AllocData, how);
+    size_t index = *(unsigned char*)k;
+    fill_obj(want, vs, index, 99);
+    vh_evals(2);
+    if (index >= n || !present[index]) { vh_violation(K("map-of-sized-types:unexpected-key", how), "iteration yields key %zu which is not bound", index); break; }
+    if (memcmp(v, want, vs) != 0) { vh_violation(K("map-of-sized-types:value-bytes-differ", how), "value of key %zu (%zu-byte keys, %zu-byte values) does not hold the bytes that were stored", index, ks, vs); break; }
+    usable_bytes(v, how);
+  }
+  if (seen != expected) { vh_violation(K("map-of-sized-types:iteration-count", how), "iteration yields %zu keys, expected %zu", seen, expected); }
+  /* after all values have been written over their full size: every key is still found, every value still right */
+  for (size_t i = 0; i < n; i++) {
+    if (!present[i]) { continue; }
+    var k = stack_obj(KT, ks, i, 11, kbuf);
+    vh_eval();
+    if (!mem(m, k)) { vh_violation(K("map-of-sized-types:key-lost", how), "key %zu is no longer found after its neighbours' values were written", i); break; }
+    fill_obj(want, vs, i, 99);
+    if (memcmp(get(m, k), want, vs) != 0) { vh_violation(K("map-of-sized-types:value-bytes-differ", how), "value of key %zu changed after its neighbours' values were written", i); break; }
+  }
+  vh_count("sized_map_checks");
+}
+
+static void sized_maps(vh_rng* r, size_t n) {
+  if (n > 200) { n = 200; }
+  int tree = (int)vh_below(r, 2);
+  int ki = (int)vh_below(r, NSZT), vi = (int)vh_below(r, NSZT);
+  var KT = SZT[ki], VT = SZT[vi]; size_t ks = SZT_SIZE[ki], vs = SZT_SIZE[vi];
+  var MK = tree ? Tree : Table;
+  char kbuf[sizeof(struct Header) + 64], vbuf[sizeof(struct Header) + 64], how[120];
+  unsigned char present[256]; memset(present, 0, sizeof present);
+  var m = new_with(MK, tuple(KT, VT));
+  /* insertion order: ascending, descending or scattered */
+  int order = (int)vh_below(r, 3);
+  for (size_t j = 0; j < n; j++) {
+    size_t i = order == 0 ? j : order == 1 ? n - 1 - j : (j * 37) % n;
+    if (present[i]) { continue; }
+    set(m, stack_obj(KT, ks, i, 11, kbuf), stack_obj(VT, vs, i, 99, vbuf));
+    present[i] = 1;
+  }
+  for (size_t i = 0; i < n; i++) { if (!present[i]) { set(m, stack_obj(KT, ks, i, 11, kbuf), stack_obj(VT, vs, i, 99, vbuf)); present[i] = 1; } }
+  snprintf(how, sizeof how, "%s<%zu-byte,%zu-byte> built by set", tree ? "Tree" : "Table", ks, vs);
+  check_map(m, KT, ks, VT, vs, present, n, how);
+  /* the same map obtained by copy, and by assign over a map of other types */
+  var c = copy(m);
+  snprintf(how, sizeof how, "%s<%zu-byte,%zu-byte> obtained by copy", tree ? "Tree" : "Table", ks, vs);
+  check_map(c, KT, ks, VT, vs, present, n, how);
+  var other_kinds[] = { Table, Tree };
+  var a = new_with(other_kinds[vh_below(r, 2)], tuple(String, Int));
+  set(a, $S("one"), $I(1)); set(a, $S("two"), $I(2));
+  var a2 = vh_chance(r, 50) ? new_with(MK, tuple(VT, KT)) : new_with(MK, tuple(KT, VT));       /* same kind, sizes the other way round */
+  assign(a, m); assign(a2, c);
+  snprintf(how, sizeof how, "%s<%zu-byte,%zu-byte> assigned over a map of String and Int", tree ? "Tree" : "Table", ks, vs);
+  if (type_of(a) == MK) { check_map(a, KT, ks, VT, vs, present, n, how); }
+  else { snprintf(how, sizeof how, "%s<%zu-byte,%zu-byte> assigned to the other map kind", tree ? "Tree" : "Table", ks, vs); check_map(a, KT, ks, VT, vs, present, n, how); }
+  snprintf(how, sizeof how, "%s<%zu-byte,%zu-byte> assigned over a map with the sizes swapped", tree ? "Tree" : "Table", ks, vs);
+  check_map(a2, KT, ks, VT, vs, present, n, how);
+  /* removals (for a Tree: nodes with two children among them) from the copy and the assigned ones, then re-check */
+  unsigned char p2[256]; memcpy(p2, present, sizeof p2);
+  for (size_t i = 0; i < n; i++) {
+    if (vh_chance(r, 40)) { rem(c, stack_obj(KT, ks, i, 11, kbuf)); rem(a2, stack_obj(KT, ks, i, 11, kbuf)); p2[i] = 0; }
+  }
+  snprintf(how, sizeof how, "%s<%zu-byte,%zu-byte> obtained by copy, after removals", tree ? "Tree" : "Table", ks, vs);
+  check_map(c, KT, ks, VT, vs, p2, n, how);
+  snprintf(how, sizeof how, "%s<%zu-byte,%zu-byte> assigned, after removals", tree ? "Tree" : "Table", ks, vs);
+  check_map(a2, KT, ks, VT, vs, p2, n, how);
+  snprintf(how, sizeof how, "%s<%zu-byte,%zu-byte> the original after its copies changed", tree ? "Tree" : "Table", ks, vs);
+  check_map(m, KT, ks, VT, vs, present, n, how);
+  vh_eval();
+  if (key_type(c) != KT || val_type(c) != VT || key_type(a2) != KT || val_type(a2) != VT) { vh_violation(K("wrong-element-type-reported", "copied or assigned map"), "key_type / val_type of a copied or assigned map disagree with the source"); }
+  del(m); del(c); del(a); del(a2);
+  if (ks < vs) { vh_count("sized_maps_value_larger_than_key"); } else if (ks > vs) { vh_count("sized_maps_key_larger_than_value"); } else { vh_count("sized_maps_equal_sizes"); }
+}
+
+static void check_seq(var c, var T, size_t es, size_t n, unsigned salt, const char* how) {
+  unsigned char want[64];
+  vh_eval();
+  if (len(c) != n) { vh_violation(K("sequence-of-sized-type:len", how), "len %zu, expected %zu", len(c), n); return; }
+  for (size_t i = 0; i < n; i++) {
+    var e = get(c, $I((int64_t)i));
+    observe(e, T, AllocData, how);
+    fill_obj(want, es, i, salt);
+    vh_eval();
+    if (memcmp(e, want, es) != 0) { vh_violation(K("sequence-of-sized-type:element-bytes-differ", how), "element %zu (%zu bytes) does not hold the bytes that were stored", i, es); return; }
+    usable_bytes(e, how);
+  }
+  for (size_t i = 0; i < n; i++) {
+    fill_obj(want, es, i, salt);
+    if (memcmp(get(c, $I((int64_t)i)), want, es) != 0) { vh_violation(K("sequence-of-sized-type:element-bytes-differ", how), "element %zu changed after its neighbours were written", i); return; }
+  }
+  neighbours_intact(c, n, how);
+  vh_count("sized_sequence_checks");
+}
+
+static void sized_sequences(vh_rng* r, size_t n) {
+  if (n > 200) { n = 200; }
+  int list = (int)vh_below(r, 2);
+  int ti = (int)vh_below(r, NSZT), oi = (int)vh_below(r, NSZT);
+  var T = SZT[ti]; size_t es = SZT_SIZE[ti];
+  var SK = list ? List : Array, OK = list ? Array : List;
+  char ebuf[sizeof(struct Header) + 64], how[120];
+  var c = new_with(SK, tuple(T));
+  for (size_t i = 0; i < n; i++) { push(c, stack_obj(T, es, i, 5, ebuf)); }
+  snprintf(how, sizeof how, "%s<%zu-byte> built by push", list ? "List" : "Array", es);
+  check_seq(c, T, es, n, 5, how);
+  var cp = copy(c);
+  snprintf(how, sizeof how, "%s<%zu-byte> obtained by copy", list ? "List" : "Array", es);
+  check_seq(cp, T, es, n, 5, how);
+  var a1 = new_with(SK, tuple(SZT[oi]));                 /* same kind, another element size */
+  for (size_t i = 0; i < 3; i++) { push(a1, stack_obj(SZT[oi], SZT_SIZE[oi], i, 1, ebuf)); }
+  assign(a1, c);
+  snprintf(how, sizeof how, "%s<%zu-byte> assigned over one of %zu-byte elements", list ? "List" : "Array", es, SZT_SIZE[oi]);
+  check_seq(a1, T, es, n, 5, how);
+  var a2 = new_with(OK, tuple(String, $S("x"), $S("y")));      /* the other kind, String elements */
+  assign(a2, c);
+  snprintf(how, sizeof how, "%s<%zu-byte> assigned to a %s of Strings", list ? "List" : "Array", es, list ? "Array" : "List");
+  check_seq(a2, T, es, n, 5, how);
+  var cc = new_with(SK, tuple(T));
+  concat(cc, cp);
+  snprintf(how, sizeof how, "%s<%zu-byte> filled by concat", list ? "List" : "Array", es);
+  check_seq(cc, T, es, n, 5, how);
+  /* shrink and grow the copy; the original is unaffected */
+  if (n > 2) {
+    resize(cp, n / 2);
+    snprintf(how, sizeof how, "%s<%zu-byte> obtained by copy, after resize", list ? "List" : "Array", es);
+    check_seq(cp, T, es, n / 2, 5, how);
+  }
+  snprintf(how, sizeof how, "%s<%zu-byte> the original after its copies changed", list ? "List" : "Array", es);
+  check_seq(c, T, es, n, 5, how);
+  vh_eval();
+  if (iter_type(a1) != T || iter_type(a2) != T || iter_type(cp) != T) { vh_violation(K("wrong-element-type-reported", "copied or assigned sequence"), "iter_type of a copied or assigned sequence disagrees with the source"); }
+  del(c); del(cp); del(a1); del(a2); del(cc);
+}
+
 /* the same refusals in a thread whose collector has never registered anything (empty registry):
    only raw and stack allocations are made there */
 static var fresh_thread_refusals(var args) {
@@ -308,6 +473,7 @@ static void fixed(void) {
     vh.oplen = 0; vh.oplog[0] = 0; vh.nops = 0;
     vh_op("enumeration at container size %zu", SZ[i]);
     enumerate_all(&r, SZ[i]);
+    for (int k = 0; k < 12; k++) { sized_maps(&r, SZ[i] + (size_t)k); sized_sequences(&r, SZ[i] + (size_t)k); }
   }
   /* OPEN FINDING reproducer: dealloc of an object obtained from alloc leaves its registry entry behind
      (in a child process: the stale entry would make a later sweep finalise freed memory) */
@@ -345,12 +511,15 @@ static void case_random(vh_rng* r, long index) {
   size_t n = 1 + vh_below(r, 90);
   vh_op("enumeration at container size %zu", n);
   enumerate_all(r, n);
+  sized_maps(r, 1 + vh_below(r, 60)); sized_maps(r, 1 + vh_below(r, 200));
+  sized_sequences(r, 1 + vh_below(r, 60));
   if (index % 4 == 0) { run_fresh_thread(); }
   vh_nontrivial();
 }
 
 int main(int argc, char** argv) {
   Rec = new_root(Type, $S("Rec"), $I(sizeof(struct Rec)));
+  for (int i = 0; i < NSZT; i++) { char nm[16]; snprintf(nm, sizeof nm, "Sized%zu", SZT_SIZE[i]); SZT[i] = new_root(Type, $S(strdup(nm)), $I((int64_t)SZT_SIZE[i])); }
   mo_prop = "C19";
   return vh_run(argc, argv, "enumeration", fixed, case_random);
 }
